@@ -479,3 +479,65 @@ Definition suite_C18huge (inp obs : list tok) : verdict :=
       else malformed
   | _, _ => malformed
   end.
+
+(* ------------------------------------------------------------------ suite C18arr  (worker w6)
+   The ARRAY forms on the crate's zero-sized element types: VolatileArrayRef::<Z>::{copy_to_volatile_slice, copy_to,
+   copy_from, store, load, ref_at(i).to_slice(), to_slice()} with Z = [u8;0] | [u64;0] | [u128;0] and n elements,
+   n in {0, 1, 5, ..., usize::MAX}; the array is region.get_array_ref::<Z>(off, n) of ONE tracked region.
+     case: mode ps size off n zsel op i k
+       op 0 copy_to_volatile_slice(region.get_slice(i, k))   1 copy_to(&mut [Z; k])   2 copy_from(&[Z; k])
+          3 store(i, [])   4 load(i)   5 ref_at(i).to_slice().len()   6 to_slice().len()        (3..5: i < n)
+     obs:  class(0 Ok, 1 Err, 2 panic) count [changed byte offsets] [dirty pages]
+   MODEL: the existing Impl/Dirty.v functions at element size 0 (DGetArr off 0 n, OArrCopyTo/From, OArrStore/Load,
+   DRefAt, DToSlice, run_copy).  CHECKER (property text): never a panic, no byte changes, no page dirty; and the call
+   succeeds when the array exists at an address valid for a non-empty access (off < size; n representable as isize,
+   the documented TooBig refusal otherwise) and - op 0 - the destination slice exists. *)
+Definition arr_region (ps size : N) : Dirty.region :=
+  {| Dirty.r_start := 0; Dirty.r_size := size; Dirty.r_ps := ps; Dirty.r_tracked := true;
+     Dirty.r_dirty := repeat false (N.to_nat (Dirty.npages size ps)) |}.
+Definition arr_step (off n op i k : N) : option Dirty.step :=
+  let g := Dirty.DGetArr off 0 n in
+  match op with
+  | 0 => Some (Dirty.SCopy 0 [g] 0 i k)
+  | 1 => Some (Dirty.SAcc 0 [g] (Dirty.OArrCopyTo k))
+  | 2 => Some (Dirty.SAcc 0 [g] (Dirty.OArrCopyFrom k))
+  | 3 => Some (Dirty.SAcc 0 [g] (Dirty.OArrStore i))
+  | 4 => Some (Dirty.SAcc 0 [g] (Dirty.OArrLoad i))
+  (* the length of the slice is what a read with a buffer of any size >= len reports... the model of .len() is a_len:
+     a read of the whole accessor, refused (ok = false) on an empty accessor only because Bytes::read rejects addr >= len;
+     so the length is taken from the accessor directly *)
+  | _ => None end.
+Definition arr_len_chain (off n op i : N) : list Dirty.dop :=
+  if op =? 5 then [Dirty.DGetArr off 0 n; Dirty.DRefAt i; Dirty.DToSlice] else [Dirty.DGetArr off 0 n; Dirty.DToSlice].
+(* (class, count, changed, dirty) *)
+Definition run_C18arr (ps size off n op i k : N) : N * N * list N * list N :=
+  let r := arr_region ps size in
+  match arr_step off n op i k with
+  | Some s =>
+      let '(rs', out) := Dirty.run_step 0 [r] s in
+      ((if Dirty.o_ok out then 0 else 1), Dirty.o_count out,
+       flat_map (fun e => if 0 <? Dirty.e_wn e then [Dirty.e_woff e] else []) (Dirty.o_effs out),
+       dirty_idx rs')
+  | None =>
+      match Dirty.derive_chain (Dirty.root r) (arr_len_chain off n op i) with
+      | Some a => (0, Dirty.a_len a, [], dirty_idx [r])
+      | None => (1, 0, [], dirty_idx [r])
+      end
+  end.
+Definition ok_C18arr (size off n op i k : N) (cl : N) (changed dirty : list N) : bool :=
+  negb (cl =? 2) && is_nil changed && is_nil dirty &&
+  (if (off <? size) && (n <=? ISZ_MAX) && (if op =? 0 then i + k <=? size else true) then cl =? 0 else true).
+Definition wf_C18arr (ps size off n zsel op i k : N) : bool :=
+  (0 <? ps) && (0 <? size) && (size <=? 1048576) && (off <? W64) && (n <? W64) && (zsel <=? 2) && (op <=? 6) &&
+  (i <? W64) && (k <? W64) && (if (3 <=? op) && (op <=? 5) then i <? n else true) &&
+  (* copy_to / copy_from visit min(k, n) elements one by one: keeps replayed / shrunk cases finite on the real crate *)
+  (if (op =? 1) || (op =? 2) then N.min k n <=? 65536 else true).
+Definition suite_C18arr (inp obs : list tok) : verdict :=
+  match inp, obs with
+  | [TN md; TN ps; TN size; TN off; TN n; TN zsel; TN op; TN i; TN k], [TN cl; TN cnt; TL changed; TL dirty] =>
+      if wf_C18arr ps size off n zsel op i k then
+        let '(mcl, mcnt, mch, md') := run_C18arr ps size off n op i k in
+        {| v_model := [TN mcl; TN mcnt; TL mch; TL md']; v_ok := ok_C18arr size off n op i k cl changed dirty; v_wellformed := true |}
+      else malformed
+  | _, _ => malformed
+  end.
